@@ -47,6 +47,7 @@ class Context:
         self.functions: set[str] = set()
         self.callsites = 0
         self.tables: dict[str, Any] = {}
+        self.undecided: list[str] = []
 
     # -- bookkeeping -----------------------------------------------------------
     def analysed(self, f: FuncInfo) -> FuncInfo:
@@ -84,6 +85,13 @@ class Context:
         else:
             self.fail(rule, key, message or f"NOT: {what}", f, node, path)
         return cond
+
+    def rule(self, fn, *args, **kw) -> None:
+        """Run one rule group; an AnalysisError makes that group *undecided* without losing the others."""
+        try:
+            fn(self, *args, **kw)
+        except AnalysisError as exc:
+            self.undecided.append(f"{self.prop}/{getattr(fn, '__name__', 'rule')}: {exc}")
 
     def floor(self, rule: str, what: str, count: int, minimum: int) -> None:
         """Vacuity guard: the instance count confirmed by reading must still be found."""
@@ -165,6 +173,7 @@ def conclude(ctx: Context, started: float, level_text: str, technique: str,
                 "tables": ctx.tables,
                 "known_findings_matched": matched,
                 "unlisted_findings": [fd.ident() for fd in unlisted],
+                "undecided": ctx.undecided,
                 **ctx.notes,
             },
             "assumptions": ctx.assumptions,
@@ -173,6 +182,10 @@ def conclude(ctx: Context, started: float, level_text: str, technique: str,
         }
         (EVIDENCE_DIR / f"{ctx.prop}.json").write_text(json.dumps(ev, indent=1, default=str))
     if not quiet:
+        for u in ctx.undecided:
+            print(f"ANALYSIS-ERROR: {u}")
         print(f"{ctx.prop}: {n_ok}/{n_obl} obligations discharged, {len(matched)} known finding(s), "
               f"{len(unlisted)} unlisted violation(s), {len(ctx.functions)} functions analysed, {wall:.2f}s")
-    return 1 if unlisted else 0
+    if unlisted:
+        return 1
+    return 2 if ctx.undecided else 0
